@@ -129,8 +129,8 @@ theorem newOffset_field (v : Nat) (h : Rat) :
   have hmap : mapP [0, 3] (getP (fieldMat h)) = .ok [-h, h] := by
     simp [mapP, getP, fieldMat, Res.map, Res.bind]
   simp only [hmap, minFold_pair_neg, Option.getD_some]
-  have hsub : subAt (fieldMat h) (-(absR h)) [0, 3] = .ok (fieldMatShifted h) := by
-    simp only [subAt, fieldMat, fieldMatShifted]
+  have hsub : Interaction.subAt (fieldMat h) (-(absR h)) [0, 3] = .ok (fieldMatShifted h) := by
+    simp only [Interaction.subAt, fieldMat, fieldMatShifted]
     simp
     constructor <;> ring
   simp only [hsub]
@@ -168,7 +168,7 @@ theorem transI_constDiag (v : Nat) (g : Rat) : (transI v g).isConstantDiag = tru
   apply chainConst_of_allEq
   intro x hx y hy
   simp [diagOf, transverseMat, List.range_succ] at hx hy
-  rcases hx with h | h <;> rcases hy with h' | h' <;> rw [h, h']
+  rw [hx, hy]
 
 /-- one of the two diagonal entries of the shifted field matrix is `2|h|` -/
 theorem fieldMat_gap (h : Rat) : absR ((absR h - h) - (absR h + h)) = 2 * absR h := by
@@ -309,7 +309,6 @@ theorem addTransverse_eq (g : Rat) (hg : 0 ≤ g) (vs : List Nat) (q : GenericSa
       rw [transI_sym] at this ⊢
       simp only [Res.map, Res.bind] at this
       simp only [added, sub_zero] at this ⊢
-      exact this
     rw [this]
     simp only [Res.unwrap, Res.bind, List.map_cons, addList, List.foldl_cons]
     exact ih _
@@ -333,5 +332,118 @@ theorem addField_eq (h : Rat) (hh : eps < absR h) (vs : List Nat) (q : GenericSa
     rw [this]
     simp only [Res.unwrap, Res.bind, List.map_cons, addList, List.foldl_cons]
     exact ih _
+
+end Qmc
+
+/-! ### closed form of `into_qmc` -/
+
+namespace Qmc
+open GenericSampler
+
+/-- what the library guarantees about an Ising sampler it constructed (`new_with_rng…` builds
+`vec![a, b]` for every edge) plus the constructor-domain requirement `Γ ≥ 0` of `make_interaction`
+(for `Γ < 0` the Ising sampler itself cannot take a step: `gen_bool` of a negative ratio) -/
+structure IsingSampler.WF (g : IsingSampler) : Prop where
+  edges2 : ∀ e ∈ g.model.edges, e.1.length = 2
+  gammaNonneg : 0 ≤ g.model.transverse
+
+def edgeEntries (m : IsingModel) : List (Interaction × Bool × Rat) :=
+  m.edges.map fun e => (edgeI e.1 e.2, true, -(absR e.2))
+def transEntries (m : IsingModel) : List (Interaction × Bool × Rat) :=
+  (List.range m.nvars).map fun v => (transI v m.transverse, true, 0)
+def fieldEntries (m : IsingModel) : List (Interaction × Bool × Rat) :=
+  if m.hasField then
+    (List.range m.nvars).map fun v => (fieldI v m.longitudinal, false, -(absR m.longitudinal))
+  else []
+
+/-- (interaction, its `sym_under_ising`, its recorded offset) in creation order -/
+def convertList (m : IsingModel) : List (Interaction × Bool × Rat) :=
+  edgeEntries m ++ transEntries m ++ fieldEntries m
+
+def convertBonds (m : IsingModel) : List Interaction := (convertList m).map (·.1)
+
+/-- the sampler `into_qmc` returns -/
+def convertResult (g : IsingSampler) : GenericSampler :=
+  ((((newWithState g.model.nvars g.state false).addList (convertList g.model)).setManager g.slots).setCutoff
+    g.cutoff)
+
+theorem addList_append (q : GenericSampler) (a b : List (Interaction × Bool × Rat)) :
+    q.addList (a ++ b) = (q.addList a).addList b := by
+  simp [addList, List.foldl_append]
+
+theorem hasField_iff (m : IsingModel) : m.hasField = true ↔ eps < absR m.longitudinal := by
+  simp [IsingModel.hasField]
+
+theorem intoQmc_eq (g : IsingSampler) (h : g.WF) : intoQmc g = .ok (convertResult g) := by
+  unfold intoQmc
+  simp only []
+  rw [addEdges_eq _ h.edges2]
+  simp only [Res.bind]
+  rw [addTransverse_eq _ h.gammaNonneg]
+  simp only [Res.bind]
+  unfold convertResult convertList
+  rw [addList_append, addList_append]
+  by_cases hf : g.model.hasField = true
+  · rw [if_pos hf, addField_eq _ ((hasField_iff _).mp hf)]
+    simp only [edgeEntries, transEntries, fieldEntries, if_pos hf]
+  · rw [if_neg hf]
+    simp only [edgeEntries, transEntries, fieldEntries, if_neg hf, addList, List.foldl_nil]
+
+/-- for `Γ < 0` (and at least one variable) the conversion panics (`unwrap` of
+"Interaction contains negative weights") -/
+theorem intoQmc_neg_gamma (g : IsingSampler) (he : ∀ e ∈ g.model.edges, e.1.length = 2)
+    (hg : g.model.transverse < 0) (hn : 0 < g.model.nvars) : intoQmc g = .panic := by
+  unfold intoQmc
+  simp only []
+  rw [addEdges_eq _ he]
+  simp only [Res.bind]
+  obtain ⟨k, hk⟩ : ∃ k, g.model.nvars = k + 1 := ⟨g.model.nvars - 1, by omega⟩
+  rw [hk, List.range_succ_eq_map, addTransverse_neg _ hg]
+
+/-! ### element lookup of the three interactions -/
+
+theorem edgeI_weight (vars : List Nat) (hv : vars.length = 2) (j : Rat) (ins outs : List Bool) :
+    (edgeI vars j).weight ins outs =
+      match ins, outs with
+      | [i0, i1], [o0, o1] => twoSiteHamiltonian i0 i1 o0 o1 j
+      | _, _ => 0 := by
+  unfold Interaction.weight Interaction.atP edgeI newDiagonalResult
+  simp only [hv]
+  rcases ins with _ | ⟨i0, _ | ⟨i1, _ | ⟨i2, it⟩⟩⟩ <;> rcases outs with _ | ⟨o0, _ | ⟨o1, _ | ⟨o2, ot⟩⟩⟩ <;>
+    simp
+  -- the only shape with the right lengths
+  cases i0 <;> cases i1 <;> cases o0 <;> cases o1 <;>
+    simp [twoSiteHamiltonian, edgeMatShifted, Interaction.indexFromBits, getP] <;> ring
+
+theorem transI_weight (v : Nat) (g : Rat) (ins outs : List Bool) :
+    (transI v g).weight ins outs =
+      match ins, outs with
+      | [i], [o] => transverseHamiltonian i o g
+      | _, _ => 0 := by
+  unfold Interaction.weight Interaction.atP transI newResult
+  simp only [chainConst_of_allEq _ (transverseMat_allEq g), List.length_singleton]
+  rcases ins with _ | ⟨i0, _ | ⟨i1, it⟩⟩ <;> rcases outs with _ | ⟨o0, _ | ⟨o1, ot⟩⟩ <;>
+    simp [transverseHamiltonian, transverseMat, getP]
+
+theorem fieldI_weight (v : Nat) (h : Rat) (hh : eps < absR h) (ins outs : List Bool) :
+    (fieldI v h).weight ins outs =
+      match ins, outs with
+      | [i], [o] => longitudinalHamiltonian i o h
+      | _, _ => 0 := by
+  have hc : (fieldI v h).itype = .full false := by
+    have := fieldI_not_constant v h hh
+    simp only [Interaction.isConstant] at this
+    cases hi : (fieldI v h).itype with
+    | diagonal => simp [fieldI, newResult] at hi
+    | full c =>
+      cases c with
+      | true => rw [hi] at this; simp at this
+      | false => rfl
+  unfold Interaction.weight Interaction.atP
+  rw [hc]
+  simp only [fieldI, newResult, List.length_singleton]
+  rcases ins with _ | ⟨i0, _ | ⟨i1, it⟩⟩ <;> rcases outs with _ | ⟨o0, _ | ⟨o1, ot⟩⟩ <;> simp
+  cases i0 <;> cases o0 <;>
+    simp [longitudinalHamiltonian, fieldMatShifted, Interaction.indexFromBits, getP]
 
 end Qmc
